@@ -211,16 +211,60 @@ func c02PrecondSkip(e *Env, s *Sched) {
 		p, okp := e.C.PathOf(c.Call.Args[0])
 		return okp && p.Suffix("Step.Preconditions") && sameNode(p.Root, s.LoopNode)
 	}
+	// the evaluation's result, also as handed back by a helper of the loop (`unmet :=
+	// sc.checkPreconditions(node)`: every return is nil or the evaluation's error)
+	var isPrecondResult func(v ssa.Value, d int) bool
+	isPrecondResult = func(v ssa.Value, d int) bool {
+		if isPrecondEval(v) {
+			return true
+		}
+		c, ok := ir.Resolve(v).(*ssa.Call)
+		if !ok || d > 2 {
+			return false
+		}
+		h := c.Call.StaticCallee()
+		if h == nil || !s.LoopFns[h] || h.Blocks == nil || h.Signature.Results().Len() != 1 || !ir.IsErrorType(h.Signature.Results().At(0).Type()) {
+			return false
+		}
+		some := false
+		for _, b := range h.Blocks {
+			rt, isR := b.Instrs[len(b.Instrs)-1].(*ssa.Return)
+			if !isR || !e.Facts(h).Reachable(b) {
+				continue
+			}
+			for _, rv := range RetVals(rt, 0) {
+				switch {
+				case ir.IsNilConst(ir.Resolve(rv)):
+				case isPrecondResult(rv, d+1):
+					some = true
+				default:
+					return false
+				}
+			}
+		}
+		return some
+	}
+	forwards := map[*ssa.Function]bool{}
+	for _, f := range sortedFns(s.LoopFns) {
+		for _, ci := range ir.CallsIn(f, func(c *ssa.CallCommon) bool { return c.StaticCallee() != nil && s.LoopFns[c.StaticCallee()] }) {
+			if v, isV := ci.(ssa.Value); isV && isPrecondResult(v, 0) {
+				forwards[ci.Common().StaticCallee()] = true
+			}
+		}
+	}
 	// (a) on the failing edge of the precondition test the node is marked skipped
 	found := false
 	for _, f := range sortedFns(s.LoopFns) {
+		if forwards[f] {
+			continue // hands the result back: its caller's test is the one that decides
+		}
 		for _, b := range f.Blocks {
 			last, ok := b.Instrs[len(b.Instrs)-1].(*ssa.If)
 			if !ok {
 				continue
 			}
 			n := ir.Normalize(ir.Lit{Cond: last.Cond, Pol: true})
-			if n.Kind != "cmp" || !ir.IsNilConst(n.Y) || !isPrecondEval(n.X) {
+			if n.Kind != "cmp" || !ir.IsNilConst(n.Y) || !isPrecondResult(n.X, 0) {
 				continue
 			}
 			found = true
